@@ -849,15 +849,20 @@ def obligations(tier):
                         'seconds below 60, and denotes exactly x rounded to microseconds'))
     sel_stub = ['timedelta / float / re are C code: the texts are assembled from selectors (pools, digit-run lengths) that the solver '
                 'enumerates; the real functions run concretely on each']
-    obs.append(Ob('C18.dur.parse_duration', 'harness.C18', 'duration_parse_runs', bind={'slim': quick}, timeout=300 if quick else 1500,
-                  functions=['sdc11073.xml_types.isoduration.parse_duration', 'sdc11073.xml_types.isoduration.duration_string'],
-                  stubs=sel_stub,
-                  bounds=('PT[nH][nM]n[.f]S with hours in {absent,3}, minutes in {absent,7}, seconds 59, fraction = 0^a D^b 9^c with '
-                          'a+b+c <= 9 and D in {1,5,9}' if quick else
-                          'PT[nH][nM]n[.f]S with hours in {absent,0,3,100}, minutes in {absent,0,7,90}, seconds in {0,5,59,120}, fraction '
-                          '= 0^a D^b 9^c with a+b+c <= 9 and D in 1..9') + ' (0..9 fractional digits)',
-                  claim='parse_duration returns the exact value within half a microsecond (more than 6 fractional digits are allowed by '
-                        'the grammar); duration_string -> parse_duration of the result changes nothing'))
+    # thorough: the full pools are 126720 selector paths - one process per (hours, minutes) choice (the single query did not finish
+    # in 1500 s)
+    dur_cases = [('', {'slim': True})] if quick else [(f'.h{h}.m{m}', {'slim': False, 'h': h, 'm': m}) for h in range(4) for m in range(4)]
+    for suffix, bind in dur_cases:
+        obs.append(Ob('C18.dur.parse_duration' + suffix, 'harness.C18', 'duration_parse_runs', bind=bind, timeout=300 if quick else 900,
+                      functions=['sdc11073.xml_types.isoduration.parse_duration', 'sdc11073.xml_types.isoduration.duration_string'],
+                      stubs=sel_stub, twin=(suffix in ('', '.h0.m0')),
+                      bounds=('PT[nH][nM]n[.f]S with hours in {absent,3}, minutes in {absent,7}, seconds 59, fraction = 0^a D^b 9^c with '
+                              'a+b+c <= 9 and D in {1,5,9}' if quick else
+                              f'PT[nH][nM]n[.f]S with hours = {("absent", "0", "3", "100")[bind["h"]]}, minutes = '
+                              f'{("absent", "0", "7", "90")[bind["m"]]}, seconds in {{0,5,59,120}}, fraction = 0^a D^b 9^c with '
+                              'a+b+c <= 9 and D in 1..9') + ' (0..9 fractional digits)',
+                      claim='parse_duration returns the exact value within half a microsecond (more than 6 fractional digits are allowed '
+                            'by the grammar); duration_string -> parse_duration of the result changes nothing'))
     obs.append(Ob('C18.datetime.timezones', 'harness.C18', 'datetime_timezones', timeout=200 if quick else 900,
                   functions=['sdc11073.xml_types.isoduration._tz_to_string', 'sdc11073.xml_types.isoduration._parse_tz',
                              'sdc11073.xml_types.isoduration.parse_date_time', 'sdc11073.xml_types.isoduration.XsdDateInformation.__str__'],
